@@ -298,7 +298,8 @@ def _steady_performance(b):
     t, notes = 1.0, []
     for i in range(12):
         bp = 0.510 - 0.020 * i / 11
-        notes.append(dict(id="p%d" % i, midi_pitch=[60, 62, 64, 65, 67, 69, 71][i % 7], note_on=t, note_off=t + 0.8 * bp, velocity=60 + i, track=0, channel=0))
+        # (played legato: the last note lasts one beat period too, so that its own "tempo" is in line with the others)
+        notes.append(dict(id="p%d" % i, midi_pitch=[60, 62, 64, 65, 67, 69, 71][i % 7], note_on=t + (0.0004 if i % 3 == 1 else 0.0), note_off=t + bp, velocity=60 + i, track=0, channel=0))
         t += bp
     ppart = pf.PerformedPart(notes, id="PP")
     al = [dict(label="match", score_id="n%d" % i, performance_id="p%d" % i) for i in range(12)]
